@@ -407,6 +407,15 @@ def curated():
     add(("sequence", ("just_void_or_done", A(0)), L))
     add(("then", "just_from"))
     add(("when_all", "just_from", L))
+    # re-connect family: a stateful sender / query value in a position that is connected again (as an lvalue) by
+    # retry_when / repeat_effect_until - it must be copied, not moved, out of the stored sender
+    add(("retry_when", ("sequence", LV, "just"), LV, A(1)))
+    add(("repeat_effect_until", ("sequence", LV, ("thenv", "just")), A(1)))
+    add(("repeat_effect_until", ("finally", ("thenv", "just"), LV), A(1)))
+    add(("retry_when", ("wqv", L, A(5)), LV, A(1)))
+    add(("repeat_effect_until", ("wqv", LV, A(5)), A(2)))
+    add(("retry_when", ("walloc", ("allocate", L), A(3)), LV, A(1)))
+    add(("retry_when", ("then", ("on", L, A(1))), LV, A(1)))
     # trait soundness: an inline child next to a deferred one in every fan-out / sequencing adaptor (a `blocking` trait
     # computed from one child only over-promises exactly here)
     add(("stop_when", "just", LV))
